@@ -21,5 +21,16 @@ f=r['failures']
 print("cases=%d failures=%d property_violations=%d"%(r['evaluations'],len(f),sum(1 for x in f if x['property_violation'])))
 for x in f[:2]:
     print("  case:",x['case'][:300]); print("  model:",x['model'][:200]); print("  impl :",x['impl'][:200])
+import os
+tag=os.environ.get("CORPUS_TAG")
+if tag and f:
+    d='/verif/corpus/%s'%sys.argv[1]
+    os.makedirs(d,exist_ok=True)
+    seen=[]
+    for x in f:
+        if x['request'] not in seen and len(x['request'])<4000: seen.append(x['request'])
+    with open('%s/%s.case'%(d,tag),'w') as fh:
+        fh.write("# inputs on which the seeded change %s makes the implementation violate %s (found by the check itself)\n"%(tag,sys.argv[1]))
+        for r in seen[:4]: fh.write(r+"\n")
 PY
 git -C "$WT" checkout -q -- .
